@@ -21,6 +21,7 @@ import (
 	"io"
 	"net/http"
 	"net/url"
+	"os"
 	"regexp"
 	"sort"
 	"strconv"
@@ -402,6 +403,29 @@ func contentReader(content []byte, d fr.Desc, salt int) io.Reader {
 	return bytes.NewReader(content)
 }
 
+// target: the store an operation with a descriptor is sent to.  Repository routes by media type
+// to Blobs() or Manifests(); calling that sub-store directly must be the same thing, so the two
+// ways alternate deterministically (quantifier: Repository/BlobStore/ManifestStore operations).
+type contentStore interface {
+	Fetch(ctx context.Context, target ocispec.Descriptor) (io.ReadCloser, error)
+	Push(ctx context.Context, expected ocispec.Descriptor, content io.Reader) error
+	Exists(ctx context.Context, target ocispec.Descriptor) (bool, error)
+	Delete(ctx context.Context, target ocispec.Descriptor) error
+}
+
+func target(c *Case, repo *remote.Repository, d fr.Desc) contentStore {
+	if (len(d.DG)+int(d.SZ)+len(d.MT))%2 == 0 {
+		run.Count("route:repository")
+		return repo
+	}
+	if isManifest(c, d.MT) {
+		run.Count("route:manifests")
+		return repo.Manifests()
+	}
+	run.Count("route:blobs")
+	return repo.Blobs()
+}
+
 func doOp(ctx context.Context, c *Case, repo *remote.Repository, o Op) (res opResult) {
 	fail := func(err error) opResult { return opResult{Str: errClass(err), Err: err} }
 	var content []byte
@@ -410,7 +434,7 @@ func doOp(ctx context.Context, c *Case, repo *remote.Repository, o Op) (res opRe
 	}
 	switch o.Kind {
 	case "push":
-		if err := repo.Push(ctx, od(o.D), contentReader(content, o.D, len(o.D.MT))); err != nil {
+		if err := target(c, repo, o.D).Push(ctx, od(o.D), contentReader(content, o.D, len(o.D.MT))); err != nil {
 			return fail(err)
 		}
 		return opResult{Str: "ok"}
@@ -420,7 +444,7 @@ func doOp(ctx context.Context, c *Case, repo *remote.Repository, o Op) (res opRe
 		}
 		return opResult{Str: "ok"}
 	case "fetch":
-		rc, err := repo.Fetch(ctx, od(o.D))
+		rc, err := target(c, repo, o.D).Fetch(ctx, od(o.D))
 		if err != nil {
 			return fail(err)
 		}
@@ -431,13 +455,13 @@ func doOp(ctx context.Context, c *Case, repo *remote.Repository, o Op) (res opRe
 		}
 		return opResult{Str: "bytes:" + common.Hex(string(b)), Bytes: b}
 	case "exists":
-		ok, err := repo.Exists(ctx, od(o.D))
+		ok, err := target(c, repo, o.D).Exists(ctx, od(o.D))
 		if err != nil {
 			return fail(err)
 		}
 		return opResult{Str: "bool:" + bit(ok), Bool: ok}
 	case "delete":
-		if err := repo.Delete(ctx, od(o.D)); err != nil {
+		if err := target(c, repo, o.D).Delete(ctx, od(o.D)); err != nil {
 			return fail(err)
 		}
 		return opResult{Str: "ok"}
@@ -780,7 +804,24 @@ func mustFail(c *Case, o Op, ex fr.Exchange) bool {
 	hasDesc := map[string]bool{"push": true, "pushref": true, "fetch": true, "exists": true, "delete": true, "tag": true, "mount": true}[o.Kind]
 	digestRef := q.EP.Kind == "blob" || (q.EP.Kind == "man" && validDigest(q.EP.Arg))
 	orig := ex.R.Status
-	if f == "status" || f == "name-unknown" {
+	if f == "name-unknown" {
+		return true
+	}
+	if f == "status" {
+		if c.Cor.Arg == strconv.Itoa(origStatusOf(ex)) {
+			return false // not a corruption
+		}
+		// 200/201/202 in answer to a POST are protocol alternatives the client cannot tell from
+		// the truth (mounted vs. session opened): a lying registry, not a contradiction
+		if q.M == "POST" && (c.Cor.Arg == "201" || c.Cor.Arg == "202") {
+			return false
+		}
+		// ... and so is the success status of the request on an answer that was a refusal
+		// (a 404 turned into a bare 200 is a valid answer without length and digest headers)
+		success := map[string]string{"GET": "200", "HEAD": "200", "PUT": "201", "DELETE": "202"}[q.M]
+		if c.Cor.Arg == success {
+			return false
+		}
 		return true
 	}
 	if !ok2xx(orig) {
@@ -836,6 +877,15 @@ func mustFail(c *Case, o Op, ex fr.Exchange) bool {
 	return false
 }
 
+// origStatusOf: the status before a status corruption cannot be read off the logged (corrupted)
+// response; the registry's honest statuses are determined by method and endpoint.
+func origStatusOf(ex fr.Exchange) int {
+	if ex.OrigStatus != 0 {
+		return ex.OrigStatus
+	}
+	return ex.R.Status
+}
+
 func replayOf(line string) map[string]string { return map[string]string{"line": line} }
 
 func execHistory(id string, c *Case) (nreq int) {
@@ -858,6 +908,7 @@ func execHistory(id string, c *Case) (nreq int) {
 		t.other[c.Pool[i].Digest] = c.Pool[i].Bytes
 	}
 	var parts []string
+	nbad := 0
 	judging := true
 	nontrivial := false
 	for i, o := range c.Ops {
@@ -874,11 +925,18 @@ func execHistory(id string, c *Case) (nreq int) {
 		}
 		var tr []string
 		var hit *fr.Exchange
+		lied := false
 		for k := first; k < len(g.Log); k++ {
 			ex := g.Log[k]
 			tr = append(tr, fr.ShowReq(ex.Q)+">"+fr.ShowResp(ex.R))
 			if ex.Bad != "" {
+				nbad++
+			}
+			if ex.Bad != "" && !lied {
 				run.OracleFail(id, "request-not-allowed", fmt.Sprintf("op %d (%s): %s: %s", i, o.Kind, ex.Bad, fr.ShowReq(ex.Q)), replayOf(line))
+			}
+			if ex.Hit && ex.Q.M == "POST" && c.Cor.Field == "status" {
+				lied = true // the client follows what the registry claimed
 			}
 			if ex.Hit {
 				e := ex
@@ -950,7 +1008,7 @@ func execHistory(id string, c *Case) (nreq int) {
 	if nontrivial {
 		run.Nontrivial(line)
 	}
-	run.Case(id, line, "notallowed=0 | "+strings.Join(parts, " | "))
+	run.Case(id, line, fmt.Sprintf("notallowed=%d | ", nbad)+strings.Join(parts, " | "))
 	run.TracesAgainstImpl += len(g.Log)
 	return g.N
 }
@@ -2153,7 +2211,7 @@ func main() {
 					cc.Cor.Arg = common.Pick(r, c.Pool).Digest
 				}
 			case "status":
-				cc.Cor.Arg = common.Pick(r, []string{"500", "204", "404", "403"})
+				cc.Cor.Arg = common.Pick(r, []string{"500", "204", "404", "403", "200", "201", "202"})
 			}
 			execHistory(run.NewID(), &cc)
 		}
@@ -2180,4 +2238,31 @@ func main() {
 		execGram(run.NewID(), genGram(r.Fork()))
 	}
 	_ = sort.Strings
+	// coverage floors: a stream that silently produced nothing is a failure of the run
+	if run.Replay == "" {
+		floors := map[string]int{"seek:r": 1000, "seek:s": 1000, "seek:position-unchanged": 50, "seek:read-eof-with-data": 50, "seek:reconnect": 200,
+			"seek:corrupt:status": 5, "seek:corrupt:len-inc": 3, "location:url": 200, "grammar:allowed": 200, "grammar:rejected": 200,
+			"opt:limit-near-manifest-size": 50, "reader:opaque": 100, "route:manifests": 100, "route:blobs": 100, "warnings:delivered": 100}
+		var low []string
+		for k, v := range floors {
+			if run.Dist[k] < v {
+				low = append(low, fmt.Sprintf("%s=%d<%d", k, run.Dist[k], v))
+			}
+		}
+		ncor := 0
+		for k, v := range run.Dist {
+			if strings.HasPrefix(k, "corrupt:") {
+				ncor += v
+			}
+		}
+		if ncor < 500 {
+			low = append(low, fmt.Sprintf("corrupted-exchanges=%d<500", ncor))
+		}
+		if len(low) > 0 {
+			sort.Strings(low)
+			run.Finish()
+			fmt.Println("coverage floor not reached:", strings.Join(low, " "))
+			os.Exit(3)
+		}
+	}
 }
